@@ -156,6 +156,8 @@ def serialize (H : Hashes) (m : Msg) (secret : Option Bytes) : SerRes :=
     match secret with
     | none => .ok (rawPacket m) m.auth
     | some sec =>
+      -- a Message-Authenticator attribute that is not 16 octets long is refused (it cannot be computed in place)
+      if m.attrs.any (fun a => a.t = 80 && a.v.length != 16) then .fail else
       match stage1 H m sec with
       | none => .fault
       | some b1 =>
